@@ -202,6 +202,11 @@ class Judge:
             p = getattr(p, '_parent', None)
             if isinstance(p, (ast.For, ast.comprehension)) and isinstance(p.target, ast.Name) and p.target.id == key.id:
                 it = norm(p.iter)
+                if isinstance(p.iter, ast.Name):
+                    defs = [x.value for x in walk_function(self.f.node) if isinstance(x, ast.Assign)
+                            and any(isinstance(t, ast.Name) and t.id == p.iter.id for t in x.targets)]
+                    if len(defs) == 1:
+                        it = norm(defs[0])
                 if it in (ct, 'list(%s)' % ct, '%s.keys()' % ct, 'sorted(%s)' % ct, 'list(%s.keys())' % ct,
                           'sorted(%s.keys())' % ct, 'tuple(%s)' % ct):
                     return True
@@ -548,6 +553,15 @@ def judge_site(repo, J, site, ctx_assume, indent_pairing_ok=None):
                 edges = J.g_truthy(base)
                 if edges and J.guarded_by_edges(n, edges):
                     return ('guarded', 'G-len (%s non-empty)' % bt)
+                # an earlier conjunct of the same `and` tests the container
+                p = n
+                while p is not None and p is not f.node:
+                    par = getattr(p, '_parent', None)
+                    if isinstance(par, ast.BoolOp) and isinstance(par.op, ast.And):
+                        idx = [i for i, v in enumerate(par.values) if v is p or any(x is p for x in ast.walk(v))]
+                        if idx and any(norm(v) == bt for v in par.values[:idx[0]]):
+                            return ('guarded', 'G-and (%s tested by an earlier conjunct)' % bt)
+                    p = par
             if isinstance(base, ast.Attribute) and (mod, base.attr) in STACK_BELIEFS:
                 return ('assumed', STACK_BELIEFS[(mod, base.attr)])
         if isinstance(base, ast.Name) and kind == 'other':
@@ -641,7 +655,7 @@ def _returns_arity(ret, func, arity):
     return False
 
 
-def r_partial_guarded(ctx, repo, modules, rule_id='R-PARTIAL-GUARDED', indent_pairing_ok=None, skip=None):
+def r_partial_guarded(ctx, repo, modules, rule_id='R-PARTIAL-GUARDED', indent_pairing_ok=None, skip=None, site_filter=None):
     rule = ctx.rule(rule_id, 'every partial operation on input-derived data (conversion, subscript, pop, unpacking) is dominated '
                              'by one of the repository\'s guard idioms or rests on a listed structural belief')
     counts = {'guarded': 0, 'assumed': 0, 'unguarded': 0}
@@ -653,6 +667,8 @@ def r_partial_guarded(ctx, repo, modules, rule_id='R-PARTIAL-GUARDED', indent_pa
             continue
         J = Judge(repo, f)
         for s in sites:
+            if site_filter is not None and not site_filter(J, s):
+                continue
             v = judge_site(repo, J, s, ctx, indent_pairing_ok)
             counts[v[0]] += 1
             if v[0] == 'guarded':
